@@ -377,7 +377,8 @@ class PlainResource(Resource):
         assert prefix.startswith("/")
         assert not prefix.endswith("/")
         assert len(prefix) > 1
-        self._path = prefix + self._path
+        # (requests are matched on their ``path_safe`` form)
+        self._path = _path_safe(_requote_path(prefix)) + self._path
 
     def _match(self, path: str) -> dict[str, str] | None:
         # string comparison is about 10 times faster than regexp matching
@@ -392,7 +393,8 @@ class PlainResource(Resource):
         return {"path": self._path}
 
     def url_for(self) -> URL:  # type: ignore[override]
-        return URL.build(path=self._path, encoded=True)
+        # The path is kept the way requests are matched (decoded): quote it.
+        return URL.build(path=_requote_path(self._path), encoded=True)
 
     def __repr__(self) -> str:
         name = "'" + self.name + "' " if self.name is not None else ""
@@ -448,8 +450,13 @@ class DynamicResource(Resource):
         assert prefix.startswith("/")
         assert not prefix.endswith("/")
         assert len(prefix) > 1
-        self._pattern = re.compile(re.escape(prefix) + self._pattern.pattern)
-        self._formatter = prefix + self._formatter
+        # As for the fixed parts of the resource's own path: quoted in the
+        # formatter, in the ``path_safe`` form in the pattern.
+        quoted = _requote_path(prefix)
+        self._pattern = re.compile(
+            re.escape(_path_safe(quoted)) + self._pattern.pattern
+        )
+        self._formatter = quoted + self._formatter
 
     def _match(self, path: str) -> dict[str, str] | None:
         match = self._pattern.fullmatch(path)
